@@ -455,7 +455,7 @@ reg("C16", needs_cli=True,
          "10% random bytes, 10% valid documents, 10% valid documents of another format, 70% structured mutations of valid documents (bit flips, deletions, duplications, truncations, splices with another document, insertion / substitution from a dictionary "
          "of separators, blanks, quotes, huge numbers and length prefixes, blank-for-tab style replacements); decoders and targeters are called until they report an error (at most |input|+3 times) and twice more afterwards; @file lines are redirected "
          "into a sandbox directory; every call runs under a 6 s limit (calls are serialised, so the limit is not a load artefact; a parser that hung three times is not called again) with panics recovered and TotalAlloc measured (calls serialised); all cases non-trivial",
-    clauses={1: "a parser call panicked", 2: "a parser call did not return within the time limit (hang)", 3: "a parser allocated more than 64 MiB + 1 KiB per input byte",
+    clauses={1: "a parser call panicked", 2: "a parser call did not return within the time limit (hang)", 3: "a parser allocated more than its fixed allowance (4 MiB; 64 MiB where encoding/gob is tried) + 1 KiB per input byte",
              4: "a parser yielded more values than its input can hold (it loops without consuming input)"},
     assumptions=["flag values travel to the vegeta process as JSON strings: inputs for the five flag parsers are valid UTF-8",
                  "gob, encoding/csv, easyjson's lexer, time.ParseDuration, datasize and net.SplitHostPort are library code: their totality is sampled here, not proved",
